@@ -105,6 +105,16 @@ def protocol_language(ctx, rule):
         ref = repo.resolve(mod, "PROTOCOL_RE")
         rec = mod.last_binding("PROTOCOL_RE")
         ok = rec is not None and rec[0] == "import" and rec[1] == "ural.patterns" and rec[2] == "PROTOCOL_RE"
+        if not ok:
+            # through helpers: every pattern the function's value is computed with (helpers expanded) is that very object
+            try:
+                ex_ = P.Extractor(repo, atomic=set())
+                t_ = ex_.result_term(ex_.function(mod.func(modname)))
+                ops = [o for o in (F.regex_op(x) for x in P.subterms(t_)) if o is not None]
+                unknown = [x for x in P.subterms(t_) if x[0] == "unknown"]
+                ok = bool(ops) and all(o[0] == PROTO for o in ops) and not unknown
+            except (Unknown, AnalysisError):
+                ok = False
         ctx.ob(rule, "%s/uses-shared-PROTOCOL_RE" % modname, ok, "%s does not import PROTOCOL_RE from ural.patterns" % modname, mod.site(mod.tree))
 
 
